@@ -86,6 +86,13 @@ def aad_layout(t, g, r, need):
     n = None
     for c in t.calls(r"copy_from_slice$", g):
         dst = strip(t.arg(c, 0)); src = fmt(t.arg(c, 1))
+        # resolve the destination reference structurally (constant sub-slices, split_at_mut halves, nested, whole array) ...
+        from rules.noncebytes import Ev
+        tg = Ev(t, g).ref_target(c.node["args"][0])
+        if tg is not None and tg[2] is not None:
+            if n is None: n = Ev(t, g).array_len(tg[0])
+            parts.append((tg[1], tg[2], src, c)); continue
+        # ... or textually, as `buf[a..b]` on the buffer itself
         m = None
         for recv, idx in find_index_ranges(dst): m = (recv, idx)
         if m is None: r.bad(f"{g.path}|dst", c, f"cannot resolve the AAD range written by {fmt(dst)[:60]}"); continue
